@@ -565,7 +565,7 @@ func checkNoRepoUse(pkgName string, names ...string) {
 func genPow() {
 	p1 := repoPkg("pkg/pow")
 	p2 := repoPkg("pkg/pow/v2")
-	g := newGenHdr("Pow", loopHeaderText+flowHeaderText, "Iota.Model.GoBits")
+	g := newGenHdr("Pow", loopHeaderText+flowHeaderText+recvHeaderText+callHeaderText+arrHeaderText+bigHeaderText+big2HeaderText+pow2HeaderText, "Iota.Model.GoBits")
 	g.def("nonceBytesV1", "Int", p1.intConst("nonceBytes"))
 	g.def("nonceBytesV2", "Int", p2.intConst("nonceBytes"))
 	g.def("tritsPerUint64", "Int", p2.intConst("tritsPerUint64"))
@@ -587,12 +587,23 @@ func genPow() {
 	g.raw("namespace v1\n" + translateLoopFuncs(p1, "checkStateTrits") + "end v1\n")
 	pinnedFns[p1.method("checkStateTrits")] = true
 	g.src(p1, "Score", "trailingZeros", "encodeNonce", "New", "Worker.Mine", "Worker.worker")
-	g.src(p2, "Score", "difficulty", "encodeNonce", "toInt", "tritToUint", "hexToInt", "New", "Worker.Mine",
-		"sufficientTrailingZeros", "targetHash", "Worker.worker", "checkStateTrits", "stateToInt")
+	// stage 14: the integer core of v2 (sufficientTrailingZeros, targetHash, tritToUint, toInt, stateToInt) translated as code
+	// (tied to the model for all inputs in Iota/Tie/PowV2Code.lean); not pinned by text any more.  hexToInt stays pinned: the
+	// value of maxHash = hexToInt("…") is computed by the translator (pow2ConstInit accepts exactly that helper body).
+	g.raw("namespace v2code\n" + translateLoopFuncs(p2, v2CodeFns...) + "end v2code\n")
+	for _, n := range v2CodeFns {
+		pinnedFns[p2.method(n)] = true
+	}
+	g.src(p2, "Score", "difficulty", "encodeNonce", "hexToInt", "New", "Worker.Mine",
+		"Worker.worker", "checkStateTrits")
 	g.rest(p1, "pow")
 	g.rest(p2, "powv2")
 	g.write()
 }
+
+// the functions of pkg/pow/v2 that genPow translates as code (stage 14, loops_pow2.go), callees first
+var v2CodeFns = []string{"sufficientTrailingZeros", "targetHash", "tritToUint", "toInt", "stateToInt"}
+
 func genSlip10() {
 	p := repoPkg("pkg/slip10")
 	el := repoPkg("pkg/slip10/elliptic")
